@@ -5,6 +5,7 @@ import MesonModel.Rewrite.Compare
 import MesonModel.Rewrite.Parse
 import MesonModel.Rewrite.ListEdit
 import MesonModel.Rewrite.PathMatch
+import MesonModel.Rewrite.Command
 /-
 driver commands of area `rewrite` (C17).
 
@@ -142,6 +143,21 @@ def withTree (f : String) (k : Expr → String) : String :=
   | some e => if e.opsKnown then k e else "ERR:MesonBugException"
   | none => "bad-tree"
 
+/-- `key|kind|value` triples of a `kwargs` command: kind s (string) b (bool) S (string list) I (id list) i (id) -/
+def decodeKvs : List String → Option (List (List Char × NewVal))
+  | [] => some []
+  | k :: kind :: v :: rest => do
+    let nv ← match kind with
+      | "s" => some (NewVal.str (decodeStr v))
+      | "b" => some (NewVal.bool (v == "1"))
+      | "S" => some (NewVal.strList (decodeStrList v))
+      | "I" => some (NewVal.idList (decodeStrList v))
+      | "i" => some (NewVal.ident (decodeStr v))
+      | _ => none
+    let r ← decodeKvs rest
+    pure ((decodeStr k, nv) :: r)
+  | _ => none
+
 def handle (cmd : String) (fs : List String) : String :=
   match cmd, fs with
   | "echo", [t] => withTree t encodeTree
@@ -171,6 +187,16 @@ def handle (cmd : String) (fs : List String) : String :=
         | .ok out => encodeStr out
         | .error e => showErr e
       else "ERR:MesonBugException"
+  | "kwcmd", text :: mt :: tree :: del :: kvs =>
+    -- one whole `kwargs set/delete` command on the text of a build file: span + node AS PARSED + the command
+    match natList mt, decodeTree tree, decodeKvs kvs with
+    | [l, c, el, ec], some e, some kv =>
+      if e.opsKnown then
+        match applyKw (decodeStr text) ⟨l, c, el, ec⟩ e ⟨del == "1", kv⟩ with
+        | .ok out => encodeStr out
+        | .error er => showErr er
+      else "ERR:MesonBugException"
+    | _, _, _ => "bad-kwcmd"
   | "normpath", [p] => encodeStr (normpath (decodeStr p))
   | "pmatch", root :: req :: cands =>
     -- candidates: relto1|strings1|relto2|strings2|...; answer: `i:j` pairs find_node accepts
